@@ -26,6 +26,26 @@ CHECKS = {
         "note": "Trusted: Lean kernel; the validator relation is exercised by the C18 check; non-blocking notifications rely on the callback running after unlock (harness callback re-enters the breaker, so a regression hangs and is reported).",
         "technique": "Lean 4 proof (inductive invariant + measure argument) + differential correspondence",
     },
+    "C04": {
+        "text": "Lean theorems over the LB model: passive ejection exactly at unhealthy_threshold (counter restarts), non-failing completions never touch health, failed probe ejects / successful probe never ejects, no traffic inside the window (dispatch_sound), eligibility and no-503 once the window elapsed under every strategy without probes, lazy expiry flips flag and mirror, mirror never shows an ejected backend healthy across ejections and expiries; tied to the code by differential histories over the event alphabet for thresholds 1..4 and all strategies with a recovery phase, listing/metrics read after most steps.",
+        "note": "Trusted: Lean kernel; overlay clock; sequential histories only (the racing schedules of the property are repaired in /repo and exercised by the race-detector workload of C12, not enumerated). Mirror invariant proved per health operation, not yet closed over whole histories.",
+        "technique": "Lean 4 proof (step theorems + invariant lemmas) + differential correspondence + trace oracle",
+    },
+    "C05": {
+        "text": "Lean theorems: round_robin gives every backend exactly k of any n*k consecutive picks from any rotation position (no 64-bit wrap), which as a sequence of atomic increments covers every interleaving; least_connections picks an eligible backend with minimal gauge; weights < 1 count as 1. weighted_round_robin exactness per sum(w) window and the history bound are evaluated by the oracle on the real strategy over all weight vectors 0..6 (n<=4 in the thorough tier) and random histories; their Lean proofs are work in progress.",
+        "note": "Trusted: Lean kernel; harness. The weighted clauses are currently decided by exhaustive small-scope differential + oracle, not by a theorem (stated in evidence).",
+        "technique": "Lean 4 proof (counting lemmas over residues; scan invariant) + differential correspondence + trace oracle",
+    },
+    "C11": {
+        "text": "Lean theorems over the atomic admin steps of the LB model: successful add is listed with normalised weight and eligible; failed add/switch change nothing; names stay unique; after remove no backend of that name is in the pool (swap-with-last removal proved a permutation of erasing the slot) and all others stay; a strategy switch keeps the listing, windows and identities. Tied to the code by differential histories with repeated/absent names, bad addresses and unknown strategies against an abstract name->weight map.",
+        "note": "Trusted: Lean kernel; atomicity of each admin operation rests on the balancer write lock held for the whole body (source fact); concurrent admin actors are exercised under -race in C12 only.",
+        "technique": "Lean 4 proof (refinement lemmas on list operations) + differential correspondence",
+    },
+    "C13": {
+        "text": "Lean theorem conserved_run: for every history of overlapping request begins/ends (all outcome classes incl. aborted, limiter/breaker rejections, no-backend), admin operations, ejections and probes, total = successful + failed + rate_limited + in_flight; at quiescence the counters add up; gauges are zero when idle given the gauge invariant. Tied to the code by differential runs through the real ServeHTTP/ReverseProxy with scripted transports and by comparing /metrics and listing numbers with the clients' and backends' own tallies.",
+        "note": "Trusted: Lean kernel; harness. The per-object gauge invariant (GaugeOK) is stated and used but its preservation is checked by the correspondence, not yet proved.",
+        "technique": "Lean 4 proof (inductive invariant over operation histories) + differential correspondence + trace oracle",
+    },
 }
 
 NOT_APPLICABLE = {}
